@@ -50,12 +50,28 @@ THEOREMS = [
     "MysticVerif.C13.join_or_identity",
     "MysticVerif.C13.join_and_independent",
     "MysticVerif.C13.join_or_total",
+    "MysticVerif.C13.gc_shape_compiles_every_solver",
+    "MysticVerif.C13.gc_shape_default_eq_chain",
+    "MysticVerif.C13.gc_shape_independent",
+    "MysticVerif.C13.gc_shape_frame",
+    "MysticVerif.C13.gc_shape_identity",
+    "MysticVerif.C13.gc_shape_short_ctype_drops",
+    "MysticVerif.C13.group_fixed_all_hold",
+    "MysticVerif.C13.join_groups_or_member_holds",
+    "MysticVerif.C13.join_groups_and_all_hold",
+    "MysticVerif.C13.join_groups_and_feeding_false_success",
+    "MysticVerif.C13.chain_independent_margin",
+    "MysticVerif.C13.compose_independent_margin",
+    "MysticVerif.C13.compose_idempotent",
+    "MysticVerif.C13.group_member_idem",
+    "MysticVerif.C13.join_groups_and_indep_all_hold",
 ]
 
 NAMES = ["a", "b", "c", "d", "spam", "eggs", "foo", "bar", "u", "v", "w", "p", "q", "alpha", "beta", "zed"]
 CMPS = ["=", "==", "<=", ">=", "<", ">", "!="]
 KEY_BAND = "solver/identity/strict-tolerance-band"
 KEY_OVF = "solver/rhs-overflows-to-inf/nan-result"
+KEY_DROP = "generate_constraint/nested-solvers/ctype-list-as-long-as-outer-sequence/relations-dropped"
 WORDS = ["spam", "eggs", "foo", "bar", "alpha", "beta", "zed"]       # names that are no substring of a function name
 SHADOW = [("K0", "K1"), ("K0", "K1"), ("e", "tau"), ("pi", "gamma"), ("K0", "e"), ("euler_gamma", "K1"), ("inf", "K0")]
 COUPLERS = ["inner", "outer", "inner_proxy", "outer_proxy"]
@@ -308,6 +324,163 @@ def gen_case(rng):
             "rich": rich, "consts": consts, "ctype": ctype, "join": join, "selfcheck": selfcheck}
 
 
+# ------------------------------------------------------------------ argument SHAPES of generate_solvers / generate_constraint
+# A nest is an int (an item) or ["T" | "L" | "A", child, ...] (a tuple / list / 1-d numpy object array of children).
+def gen_nest(rng, items, depth, empty=0.06):
+    """a random nesting of the sequence `items` (order kept, every item exactly once), now and then with an empty group"""
+    kids = []; k = 0; n = len(items)
+    while k < n:
+        if depth > 0 and rng.random() < 0.45:
+            size = rng.randint(1, min(3, n - k))
+            kids.append(gen_nest(rng, items[k:k + size], depth - 1, empty)); k += size
+        else:
+            kids.append(items[k]); k += 1
+        if depth > 0 and rng.random() < empty:
+            kids.append([rng.choice("TL")])
+    if depth > 0 and n == 0 and rng.random() < 0.3:
+        kids.append([rng.choice("TL")])
+    return [rng.choice("TTL")] + kids
+
+
+def nest_flat(t):
+    return [t] if not isinstance(t, list) else [v for u in t[1:] for v in nest_flat(u)]
+
+
+def nest_top(t):
+    """the top-level items of the `conditions` argument (a single function counts as a one-element list)"""
+    return [t] if not isinstance(t, list) else list(t[1:])
+
+
+def nest_depth(items):
+    """levels of nesting below a list of items (an empty list counts one level)"""
+    return max([0] + [1 + nest_depth(u[1:]) for u in items if isinstance(u, list)])
+
+
+def nest_sexp(t, leaf=str):
+    return leaf(t) if not isinstance(t, list) else "(" + " ".join(nest_sexp(u, leaf) for u in t[1:]) + ")"
+
+
+def nest_relabel(t, start=0):
+    """the same nesting with the items renumbered 0, 1, .. in flattening order"""
+    cnt = [start]
+
+    def go(u):
+        if not isinstance(u, list):
+            cnt[0] += 1
+            return cnt[0] - 1
+        return [u[0]] + [go(v) for v in u[1:]]
+    return go(t)
+
+
+def nest_subst(t, f):
+    return f(t) if not isinstance(t, list) else [t[0]] + [nest_subst(u, f) for u in t[1:]]
+
+
+def cond_nest(case):
+    """the nesting of the `conditions` argument over the positions 0.. of the flattened solvers (the generator's own structure)"""
+    sh = case.get("shape")
+    m = len(case["rels"])
+    if not sh or sh["how"] == "text":
+        return ["T"] + list(range(m))
+    if sh["how"] == "blocks":
+        # a block of text becomes the tuple of its solvers
+        return nest_relabel(nest_subst(sh["tree"], lambda b: ["T"] + list(sh["blocks"][b])))
+    return sh["tree"]
+
+
+def block_list(case):
+    """the relations (indices into case['rels']) of every text handed to constraints_parser, in flattening order"""
+    sh = case.get("shape")
+    if not sh or sh["how"] != "blocks":
+        return [list(range(len(case["rels"])))]
+    return [list(sh["blocks"][b]) for b in nest_flat(sh["tree"])]
+
+
+def ctype_flat(ct):
+    return [ct] if isinstance(ct, str) else [v for u in ct for v in ctype_flat(u)]
+
+
+def ctype_depth(ct):
+    return max([0] + [1 + ctype_depth(u) for u in ct if isinstance(u, list)])
+
+
+def ctype_sexp(ct):
+    if ct is None:
+        return "none"
+    return ct.split("_")[0] if isinstance(ct, str) else "(" + " ".join(ctype_sexp(u) for u in ct) + ")"
+
+
+def gen_shape(rng, case):
+    """HOW the relations reach generate_constraint: one text (a flat tuple of solvers), a tuple / list / nesting of TEXTS
+    (generate_solvers returns a tuple of tuples), a hand-made nesting of the solvers of one text (lists, tuples, empty groups,
+    one-element wrappers), one solver function that is not inside a sequence, a numpy object array; and the form of `ctype`:
+    None / one coupler / a flat list / a list nested like the solvers / nested differently / longer than needed / - a class of
+    its own - a list as long as the OUTER sequence of nested solvers"""
+    rels = case["rels"]; m = len(rels)
+    u = rng.random()
+    how = "text" if u < 0.58 else "blocks" if u < 0.75 else "hand" if u < 0.91 else "single" if u < 0.955 else "array"
+    if how == "single" and m != 1:
+        how = "hand"
+    sh = {"how": how}
+    if how == "blocks":
+        # cut the text into consecutive blocks; lines on the same left-hand variable stay in one text (the parser couples them)
+        cuts = [p for p in range(1, m) if not ({r[0] for r in rels[:p]} & {r[0] for r in rels[p:]})]
+        chosen = sorted(c for c in cuts if rng.random() < 0.55)
+        edges = [0] + chosen + [m]
+        blocks = [list(range(a, b)) for a, b in zip(edges, edges[1:])]
+        if rng.random() < 0.12:
+            blocks.insert(rng.randint(0, len(blocks)), [])            # an empty text: generate_solvers('') == ()
+        ids = list(range(len(blocks)))
+        sh["blocks"] = blocks
+        sh["tree"] = gen_nest(rng, ids, 0) if rng.random() < 0.7 else gen_nest(rng, ids, 2, empty=0.0)
+    elif how == "hand":
+        sh["tree"] = gen_nest(rng, list(range(m)), rng.choice([1, 1, 2, 3]))
+        if rng.random() < 0.15:
+            sh["tree"] = [rng.choice("TL"), sh["tree"]]               # everything wrapped once more
+    elif how == "single":
+        sh["tree"] = 0
+    elif how == "array":
+        sh["tree"] = ["A"] + list(range(m))
+    case["shape"] = sh if how != "text" else None
+    nest = cond_nest(case)
+    items = nest_top(nest); groups = [nest_flat(t) for t in items]
+    ct = case.get("ctype"); join = case.get("join")
+    form = "none" if ct is None else "one" if isinstance(ct, str) else "flat"
+    pick = lambda: rng.choice(COUPLERS)
+    if join is None:
+        if isinstance(ct, list) and how != "text":
+            v = rng.random()
+            if v < 0.35:
+                ct = nest_subst(nest, lambda k: ct[k]) ; ct = _untag(ct); form = "mirror"
+            elif v < 0.6:
+                ct = _untag(nest_subst(gen_nest(rng, list(range(m)), 2, empty=0.04), lambda k: ct[k])); form = "renest"
+            elif v < 0.72:
+                ct = list(ct) + [pick() for _ in range(rng.randint(1, 2))]; form = "longer"
+        elif ct is None and how != "text" and len(items) < m and rng.random() < 0.10:
+            ct = [pick() for _ in items]; form = "outer-length"      # `a list .. of the same length as conditions`, read literally
+    else:
+        v = rng.random()
+        if v < 0.34:
+            if nest_depth(items) == 0 or rng.random() < 0.6:
+                # as deep as the solvers: every member gets its own entry (a coupler, or the list of its group)
+                ct = [pick() if not isinstance(t, list) else _untag(nest_subst(t, lambda k: pick())) for t in items]
+                form = "per-member"
+            else:
+                # flatter than the solvers: every member gets the WHOLE list (long enough for the largest group)
+                ct = [pick() for _ in range(max([len(g) for g in groups] + [1]) + rng.choice([0, 0, 1]))]; form = "whole-list"
+            if ct == []:
+                ct = None; form = "none"
+        elif v < 0.40 and how != "text" and nest_depth(items) >= 1 and max(len(g) for g in groups) > len(items):
+            ct = [pick() for _ in items]; form = "outer-length"
+    case["ctype"] = ct
+    case["ctype_form"] = form
+
+
+def _untag(t):
+    """a nest of coupler names as plain nested lists"""
+    return t if not isinstance(t, list) else [_untag(u) for u in t[1:]]
+
+
 def finalize_point(rng, case):
     """place the left-hand variables on / around their boundaries (uses python's own evaluation of the text)"""
     tol = (case["locals"] or {}).get("tol", 1e-15); rel = (case["locals"] or {}).get("rel", 1e-15)
@@ -339,6 +512,68 @@ def mystic_args(case):
 
 
 # ------------------------------------------------------------------ running the implementation
+def py_build(tree, leaf):
+    """the python object of a nest: tuples, lists, 1-d numpy object arrays"""
+    if not isinstance(tree, list):
+        return leaf(tree)
+    kids = [py_build(t, leaf) for t in tree[1:]]
+    if tree[0] == "T":
+        return tuple(kids)
+    if tree[0] == "A":
+        import numpy
+        arr = numpy.empty(len(kids), dtype=object)
+        for k, v in enumerate(kids):
+            arr[k] = v
+        return arr
+    return kids
+
+
+def _is_seq(o):
+    import numpy
+    return isinstance(o, (list, tuple, numpy.ndarray))
+
+
+def py_flat(o):
+    return [v for u in o for v in py_flat(u)] if _is_seq(o) else [o]
+
+
+def py_nest(o):
+    """the nesting of a returned object over the positions of its flattening (sequence types forgotten)"""
+    cnt = [0]
+
+    def go(u):
+        if _is_seq(u):
+            return [go(v) for v in u]
+        cnt[0] += 1
+        return cnt[0] - 1
+    return go(o)
+
+
+def py_ctype(ct, CP):
+    if ct is None:
+        return None
+    return getattr(CP, ct) if isinstance(ct, str) else [py_ctype(u, CP) for u in ct]
+
+
+def case_block_text(case, idxs):
+    nm = namer(case["scheme"])
+    lines = ["%s %s %s" % (nm(i), cmp, T.print_expr(term, nm)) for (i, cmp, term) in (case["rels"][k] for k in idxs)]
+    pad = "    " if len(lines) > 1 else ""
+    return "\n".join(pad + l for l in lines)
+
+
+def build_conditions(case, S, text, locs, kw):
+    """the `conditions` argument of generate_constraint, in the shape the case prescribes"""
+    sh = case.get("shape")
+    if not sh or sh["how"] == "text":
+        return S.generate_solvers(text, locals=locs, **kw)
+    if sh["how"] == "blocks":
+        arg = py_build(sh["tree"], lambda b: case_block_text(case, sh["blocks"][b]))
+        return S.generate_solvers(arg, locals=locs, **kw)
+    flat = S.generate_solvers(text, locals=locs, **kw)
+    return py_build(sh["tree"], lambda k: flat[k])
+
+
 def run_impl(case):
     from mystic import symbolic as S
     text = case_text(case)
@@ -346,11 +581,13 @@ def run_impl(case):
     locs = dict(case["locals"]) if case["locals"] is not None else None
     obs = {"text": text}
     try:
-        solvers = S.generate_solvers(text, locals=locs, **kw)
+        conds = build_conditions(case, S, text, locs, kw)
+        solvers = py_flat(conds)
         obs["docs"] = [s.__doc__ for s in solvers]
+        obs["nest"] = py_nest(conds)
         from mystic import coupler as CP, constraints as CN
         ct = case.get("ctype")
-        ctype = None if ct is None else (getattr(CP, ct) if isinstance(ct, str) else [getattr(CP, c) for c in ct])
+        ctype = py_ctype(ct, CP)
         join = None
         failed = [False]
         if case.get("join"):
@@ -361,9 +598,9 @@ def run_impl(case):
             _comb = getattr(CN, case["join"])
             join = lambda *members: _comb(*members, onfail=mark)
         if ctype is None and join is None:
-            cf = S.generate_constraint(solvers)
+            cf = S.generate_constraint(conds)
         else:
-            cf = S.generate_constraint(solvers, ctype=ctype, join=join)
+            cf = S.generate_constraint(conds, ctype=ctype, join=join)
     except Exception as exc:
         obs["gen_raises"] = "%s: %s" % (type(exc).__name__, exc)
         return obs
@@ -483,6 +720,37 @@ def expected_order(rels):
     return list(reversed(ne + ot))
 
 
+def own_reading(case):
+    """python's own reading of how generate_constraint distributes couplers over the flattened solvers (documented behaviour:
+    both arguments are flattened and paired one to one; None / one coupler = that coupler for every solver). Returns
+    {"groups": positions per member (join) or [all positions], "names": coupler name per position or None where the list
+    handed over has no entry for it}"""
+    nest = cond_nest(case); m = len(case["rels"])
+    ct = case.get("ctype"); join = case.get("join")
+    items = nest_top(nest)
+
+    def pair(positions, c):
+        if c is None:
+            return ["inner"] * len(positions)
+        if isinstance(c, str):
+            return [c] * len(positions)
+        fl_ = ctype_flat(c)
+        return [fl_[k] if k < len(fl_) else None for k in range(len(positions))]
+    names = [None] * m
+    if not join:
+        groups = [nest_flat(nest)]
+        for k, nmk in zip(groups[0], pair(groups[0], ct)):
+            names[k] = nmk
+        return {"groups": groups, "names": names}
+    groups = [nest_flat(t) for t in items]
+    per_member = isinstance(ct, list) and ctype_depth(ct) >= nest_depth(items)
+    for q, g in enumerate(groups):
+        c = (ct[q] if q < len(ct) else "missing") if per_member else ct
+        for k, nmk in zip(g, pair(g, c) if c != "missing" else [None] * len(g)):
+            names[k] = nmk
+    return {"groups": groups, "names": names}
+
+
 def build_request(case, obs):
     """align emitted statements with the text's relations; returns (line, info) or (None, reason)"""
     rels = case["rels"]; consts = case.get("consts") or {}
@@ -492,14 +760,24 @@ def build_request(case, obs):
         return None, "emitted source outside the modelled language: %s" % exc
     if len(codes) != len(rels):
         return None, "%d statements emitted for %d relations" % (len(codes), len(rels))
-    used = set(); order = []
-    for c in codes:
-        hit = [k for k, r in enumerate(rels) if k not in used and r[0] == c[0] and REL_SHAPE[r[1]] == shape_kind(c)]
-        if not hit:
-            hit = [k for k, r in enumerate(rels) if k not in used and r[0] == c[0]] or [k for k in range(len(rels)) if k not in used]
-        # several lines with the same variable and shape: the emission order decides
-        pick = [k for k in expected_order(rels) if k in hit][0]
-        used.add(pick); order.append(pick)
+    want_nest = _untag(cond_nest(case))
+    if obs.get("nest") != want_nest:
+        return None, "the solvers come back nested as %r, the texts / the hand-made nesting prescribe %r" % (obs.get("nest"), want_nest)
+    order = []; exp_order = []; pos = 0
+    for blk in block_list(case):
+        # every text is parsed on its own: '!=' lines first, then the others, the tuple reversed
+        brels = [rels[k] for k in blk]
+        exp_b = [blk[q] for q in expected_order(brels)]
+        exp_order.extend(exp_b)
+        used = set()
+        for c in codes[pos:pos + len(blk)]:
+            hit = [k for k in blk if k not in used and rels[k][0] == c[0] and REL_SHAPE[rels[k][1]] == shape_kind(c)]
+            if not hit:
+                hit = [k for k in blk if k not in used and rels[k][0] == c[0]] or [k for k in blk if k not in used]
+            # several lines with the same variable and shape: the emission order decides
+            pick = [k for k in exp_b if k in hit][0]
+            used.add(pick); order.append(pick)
+        pos += len(blk)
     tol = (case["locals"] or {}).get("tol", 1e-15); rel = (case["locals"] or {}).get("rel", 1e-15)
     rs = []
     for k in order:
@@ -512,9 +790,25 @@ def build_request(case, obs):
     npfn = any(_has(c[1], lambda e: e[0] == "app1") for c in codes)
     mayraise = any(_has(c[1], lambda e: e[0] == "/" or (e[0] == "app2" and e[3][0] == "n" and e[3][1] < 0)) for c in codes)
     # numpy scalars (the values of sqrt, exp, ..) divide by zero / raise zero to a negative power without raising
-    info = {"order": order, "expected_order": expected_order(rels), "inexact": any(T.inexact(c[1]) for c in codes),
+    info = {"order": order, "expected_order": exp_order, "inexact": any(T.inexact(c[1]) for c in codes),
             "np_mayraise": npfn and mayraise}
     ct = case.get("ctype"); join = case.get("join")
+    own = own_reading(case)
+    info["groups"] = own["groups"]; info["names"] = own["names"]
+    shaped = bool(case.get("shape")) or (isinstance(ct, list) and (bool(join) or any(isinstance(u, list) for u in ct) or len(ct) != len(codes)))
+    if not join:
+        # the order in which the composition must run the statements (harness' own reading of the couplers):
+        # an inner level runs its solver before everything wrapped so far, an outer level after it
+        run = []
+        for k, nm in enumerate(own["names"]):
+            if nm is not None:
+                run = [k] + run if nm.startswith("inner") else run + [k]
+        info["run_order"] = run
+    if shaped:
+        info["mode"] = join or ("ctype" if ct is not None else "default")
+        info["op"] = "gcs"
+        return "C13 gcs (mode %s) (conds %s) (ctype %s) %s" % (join.rstrip("_") if join else "none", nest_sexp(cond_nest(case)),
+                                                              ctype_sexp(ct), body), info
     if join:
         info["mode"] = join
         return "C13 gc (mode %s) %s" % (join.rstrip("_"), body), info
@@ -523,14 +817,9 @@ def build_request(case, obs):
         if len(names) != len(codes):
             return None, "ctype list does not match the solvers"
         info["mode"] = "ctype"
-        # the order in which the composition must run the statements (harness' own reading of the couplers):
-        # an inner level runs its solver before everything wrapped so far, an outer level after it
-        run = []
-        for k, nm in enumerate(names):
-            run = [k] + run if nm.startswith("inner") else run + [k]
-        info["run_order"] = run
         return "C13 gc (mode ctype) (ctypes (%s)) %s" % (" ".join(nm.split("_")[0] for nm in names), body), info
     info["mode"] = "default"
+    del info["run_order"]
     return "C13 chain " + body, info
 
 
@@ -556,9 +845,15 @@ def rel_ok(sym, cmp, yi, r1, t):
     return T.py_holds(cmp, yi, r1)
 
 
+def holds_key(case, sym):
+    sh = case.get("shape")
+    return "solver/holds/%s" % sym if not sh else "compose/%s-solvers/holds/%s" % (sh["how"], sym)
+
+
 def monitor_fixed(case, obs, info):
     """every solver that leaves the output unchanged has its relation satisfied there (C13.fixed_point_margin on the real
-    code; no independence needed), and with join=or_ at least one relation holds at the output"""
+    code; no independence needed); with join=and_ a success satisfies every relation, with join=or_ the relations of at
+    least one member (a member = one top-level item of `conditions`: a solver or a whole group)"""
     out = []
     y = obs["y"]; rels = case["rels"]; consts = case.get("consts") or {}
     tol = (case["locals"] or {}).get("tol", 1e-15); rel = (case["locals"] or {}).get("rel", 1e-15)
@@ -566,7 +861,9 @@ def monitor_fixed(case, obs, info):
         return out
     fx = obs.get("fixed") or []
     order = info["order"]
-    holds_any = False; usable = True; holds_all = True
+    names = info.get("names") or ["inner"] * len(order)
+    groups = info.get("groups") or [[p] for p in range(len(order))]
+    usable = True; ok_at = {}
     for pos, k in enumerate(order):
         i, cmp, term = rels[k]
         try:
@@ -577,19 +874,26 @@ def monitor_fixed(case, obs, info):
             usable = False; continue
         sym = T.CMP_SYM[cmp]
         ok = rel_ok(sym, cmp, y[i], r1, tolf(r1, tol, rel))
-        holds_any = holds_any or ok
-        holds_all = holds_all and ok
+        ok_at[pos] = ok
         if pos < len(fx) and fx[pos] is True and not ok:
             out.append(("solver/fixed-point-violates/%s" % sym, "the solver %r leaves %r unchanged although x%d %s %r is false there" %
                         (obs["docs"][pos], y, i, cmp, r1)))
-    if case.get("join") == "and_" and usable and not obs.get("drew") and not obs.get("join_failed") and not holds_all \
-            and case["kind"] != "selfref" and all(math.isfinite(v) for v in case["x"]):
+    if not case.get("join") or not usable or obs.get("drew") or obs.get("join_failed") or not all(math.isfinite(v) for v in case["x"]):
+        return out
+    # a member that holds two lines on one variable has no fixed-point guarantee (the lines of a group run one after the other)
+    live = [[p for p in g if names[p] is not None] for g in groups]
+    if any(len({rels[order[p]][0] for p in g}) < len(g) for g in live):
+        return out
+    dropped = any(names[p] is None for g in groups for p in g)
+    # and_ declares success when its members' outputs repeat; that means "every member leaves y unchanged" for IDEMPOTENT members
+    # (C17.and_success_fixed): single solvers are (C13.member_idem), a group is when its lines do not feed one another
+    feeds = any(rels[order[a]][0] in T.term_vars(rels[order[b]][2]) for g in live for a in g for b in g if a != b)
+    if case.get("join") == "and_" and case["kind"] != "selfref" and not feeds and not all(ok_at.get(p, True) for g in live for p in g):
         out.append(("join-and/success-but-violated", "generate_constraint(join=and_) reported success (onfail not called, no random draw) with %r "
-                    "for x=%r, where not every relation of %r holds" % (y, case["x"], obs["text"])))
-    if case.get("join") == "or_" and usable and not obs.get("drew") and not obs.get("join_failed") and not holds_any \
-            and all(math.isfinite(v) for v in case["x"]):
-        out.append(("join-or/none-holds", "generate_constraint(join=or_) returned %r for x=%r, where no relation of %r holds" %
-                    (y, case["x"], obs["text"])))
+                    "for x=%r, where not every relation of %r holds (members %r)" % (y, case["x"], obs["text"], groups)))
+    if case.get("join") == "or_" and not dropped and not any(all(ok_at.get(p, True) for p in g) for g in live):
+        out.append(("join-or/none-holds", "generate_constraint(join=or_) returned %r for x=%r, where the relations of no member hold (%r, members %r)" %
+                    (y, case["x"], obs["text"], groups)))
     return out
 
 
@@ -613,13 +917,13 @@ def monitor(case, obs, info=None):
     if kind == "feed" and not case.get("join") and info and info.get("order") is not None and all(math.isfinite(v) for v in y):
         # lines that feed one another: only the relation whose solver runs LAST is claimed (C13.compose_feeding_partial);
         # which one that is follows from the couplers: inner = before, outer = after everything wrapped so far
-        run = info.get("run_order") or list(reversed(range(len(info["order"]))))
-        i, cmp, term = rels[info["order"][run[-1]]]
+        run = info["run_order"] if "run_order" in info else list(reversed(range(len(info["order"]))))
+        i, cmp, term = rels[info["order"][run[-1]]] if run else rels[0]
         try:
             r1 = _safe_eval(term, y, consts)
         except (ZeroDivisionError, OverflowError, TypeError, ValueError):
             r1 = math.nan
-        if math.isfinite(r1) and not rel_ok(T.CMP_SYM[cmp], cmp, y[i], r1, tolf(r1, tol, rel)):
+        if run and math.isfinite(r1) and not rel_ok(T.CMP_SYM[cmp], cmp, y[i], r1, tolf(r1, tol, rel)):
             out.append(("compose/last-relation/%s" % T.CMP_SYM[cmp], "the solver of `x%d %s ..` runs last (ctype=%r) but x%d %s %r is false at the output %r (x=%r)" %
                         (i, cmp, case.get("ctype"), i, cmp, r1, y, x0)))
     if kind in ("feed", "selfref") or case.get("join") == "or_" or obs.get("drew"):
@@ -642,8 +946,20 @@ def monitor(case, obs, info=None):
                 forb.setdefault(i, []).append(_safe_eval(term, x0, consts))
             except (ZeroDivisionError, OverflowError, TypeError, ValueError):
                 pass
+    if case.get("join"):
+        # constraints.and_ swallows a member's ZeroDivisionError: a text with a relation whose right-hand side is undefined at
+        # the point cannot be satisfied there, and the lines grouped with it are not applied either
+        for (i, cmp, term) in rels:
+            try:
+                _safe_eval(term, x0, consts); _safe_eval(term, y, consts)
+            except (ZeroDivisionError, OverflowError, TypeError, ValueError):
+                return out
     all_margin = True
-    for (i, cmp, term) in rels:
+    # relations whose solver got no coupler (a ctype list shorter than the flattened solvers): recorded class KEY_DROP
+    unclaimed = set()
+    if info and info.get("names") and info.get("order") is not None:
+        unclaimed = {info["order"][p] for p, nmk in enumerate(info["names"]) if nmk is None}
+    for kk, (i, cmp, term) in enumerate(rels):
         try:
             r0 = _safe_eval(term, x0, consts); r1 = _safe_eval(term, y, consts)
         except (ZeroDivisionError, OverflowError, TypeError, ValueError):
@@ -658,6 +974,9 @@ def monitor(case, obs, info=None):
                 continue                         # unsatisfiable in the extended reals
             # overflowing right-hand side (finite input): the relation is still meaningful in the extended reals
             ok_after = T.py_holds(cmp, y[i], r1)
+            if kk in unclaimed:
+                all_margin = False
+                continue                         # its solver never ran (class KEY_DROP, reported on finite right-hand sides)
             if not ok_after or (T.py_holds(cmp, x0[i], r0) and not num_eq(y[i], x0[i]) and sym != "eq"):
                 key = KEY_OVF if (y[i] != y[i]) else "solver/rhs-overflows-to-inf/other"
                 out.append((key, "%s %s rhs with rhs=%r (overflow at finite x=%r): x_i %r -> %r" % ("x%d" % i, cmp, r0, x0, x0[i], y[i])))
@@ -666,7 +985,13 @@ def monitor(case, obs, info=None):
         t = tolf(r1, tol, rel)
         # clause 1: the relation holds on the output (strictly for strict comparators, unless rounding absorbs the tolerance)
         if not rel_ok(sym, cmp, y[i], r1, t):
-            out.append(("solver/holds/%s" % sym, "after the constraint, x%d %s %r is false: x=%r -> %r (tol=%r rel=%r)" % (i, cmp, r1, x0, y, tol, rel)))
+            if kk in unclaimed:
+                out.append((KEY_DROP, "generate_constraint(<solvers nested as %r>, ctype=%r%s): the relation x%d %s %r of %r is not enforced: "
+                            "x=%r -> %r" % (_untag(cond_nest(case)), case.get("ctype"), (", join=%s" % case["join"]) if case.get("join") else "",
+                                            i, cmp, r1, obs["text"], x0, y)))
+            else:
+                out.append((holds_key(case, sym), "after the constraint, x%d %s %r is false: x=%r -> %r (tol=%r rel=%r; solvers handed over as %r, ctype=%r, join=%r)" %
+                            (i, cmp, r1, x0, y, tol, rel, _untag(cond_nest(case)), case.get("ctype"), case.get("join"))))
         # clause 3: identity on feasible input
         t0 = tolf(r0, tol, rel)
         feasible = T.py_holds(cmp, x0[i], r0)
@@ -808,6 +1133,23 @@ def _uses(t, op):
     return isinstance(t, tuple) and (t[0] == op or any(_uses(u, op) for u in t[1:]))
 
 
+def inexact_tie(case, obs):
+    """a '!=' line whose right-hand side uses exp / log / sin / cos / ** while x_i lies within 4 ulps of it: the last-ulp difference
+    between numpy's kernels and libm decides the EQUALITY test itself (the result jumps by 1.1*tol), not a rounding of the result"""
+    consts = case.get("consts") or {}
+    for (i, cmp, term) in case["rels"]:
+        if cmp != "!=" or not any(_uses(term, op) for op in ("exp", "log", "sin", "cos", "pow")):
+            continue
+        for v in (case["x"], obs.get("y") or case["x"]):
+            try:
+                r = _safe_eval(term, v, consts)
+            except (ZeroDivisionError, OverflowError, TypeError, ValueError):
+                continue
+            if math.isfinite(r) and math.isfinite(v[i]) and abs(v[i] - r) <= 4 * math.ulp(r):
+                return True
+    return False
+
+
 def check_case(case, obs, rep, info, hist):
     """compare model reply and implementation; returns list of Findings"""
     fs = []
@@ -845,15 +1187,33 @@ def check_case(case, obs, rep, info, hist):
             bump(hist, "cmp:bit-exact" + (":inexact-fn" if info.get("inexact") else ""))
         elif info.get("inexact") and close(my, obs["y"]):
             bump(hist, "cmp:toleranced-inexact-fn")
+        elif info.get("inexact") and inexact_tie(case, obs):
+            bump(hist, "cmp:inexact-fn-decides-equality-skipped")
         else:
             fs.append(Finding("correspondence", "chain/diverges" if mode in ("default", "ctype") else "join/diverges",
                               "result model=%r impl=%r (mode %s)" % (my, obs["y"], mode), cdesc))
-    if mode == "ctype" and mres == "value":
+    if mres == "generr":
+        fs.append(Finding("correspondence", "shape/generation", "the model's generate_constraint runs out of couplers (RuntimeError), the implementation built %r" %
+                          (obs.get("y", obs.get("raises")),), cdesc))
+        return fs
+    if info.get("op") == "gcs" and mode in ("default", "ctype") and "used" in r[1]:
+        # the solvers that take part: the model's zip vs the harness' own reading of the documented pairing
+        used = sorted(int(v) for v in r[1]["used"])
+        mine = sorted(p for p, nmk in enumerate(info.get("names") or []) if nmk is not None)
+        if used != mine:
+            fs.append(Finding("correspondence", "shape/solvers-taking-part", "the model composes the solvers %r, the documented pairing gives %r" % (used, mine), cdesc))
+    if (mode == "ctype" or info.get("op") == "gcs") and mode in ("default", "ctype") and mres == "value":
         # the statements must run in the order the couplers prescribe (model `order`, head = applied last)
         want = [codes_i for codes_i in reversed([int(v) for v in r[1].get("order", [])])]
         have = [T.parse_assign(obs["docs"][k], case.get("consts") or {})[0] for k in info["run_order"]]
         if want != have:
             fs.append(Finding("correspondence", "compose/order", "model applies targets %r, the couplers prescribe %r" % (want, have), cdesc))
+    if mode in ("and_", "or_") and "groups" in r[1]:
+        theirs = [[int(v) for v in g] for g in r[1]["groups"]]
+        names_ = info.get("names") or []
+        mine = [[p for p in g if names_[p] is not None] for g in (info.get("groups") or [])]
+        if theirs != mine:
+            fs.append(Finding("correspondence", "shape/members", "the model joins the members %r, the documented grouping gives %r" % (theirs, mine), cdesc))
     if mode in ("and_", "or_"):
         bump(hist, "join:%s:%s" % (mode, mres))
         drew = obs.get("drew", 0)
@@ -906,6 +1266,7 @@ def run_shard(pid, seed, shard, ncases, tier, extra):
             rng = case_rng(PID, seed, shard, k)
             case = gen_case(rng)
             finalize_point(rng, case)
+            gen_shape(rng, case)
             obs = run_impl(case)
             bump(hist, "kind:" + case["kind"])
             if "gen_raises" in obs or ("raises" in obs and obs["raises"] not in ("zerodiv", "overflow")):
@@ -953,6 +1314,15 @@ def run_shard(pid, seed, shard, ncases, tier, extra):
         bump(hist, "nvars>=11" if case["n"] >= 11 else "nvars<11")
         bump(hist, "scheme:" + case["scheme"][0]); bump(hist, "regime:" + case["regime"])
         bump(hist, "mode:" + info.get("mode", "default") + ":" + case["kind"])
+        sh_ = case.get("shape")
+        bump(hist, "shape:%s:join=%s:ctype=%s" % (sh_["how"] if sh_ else "text", case.get("join"), case.get("ctype_form", "-")))
+        if sh_:
+            nst = cond_nest(case)
+            bump(hist, "shape-depth:%d" % nest_depth(nest_top(nst)))
+            if len(nest_top(nst)) < len(case["rels"]):
+                bump(hist, "shape:outer-shorter-than-solvers")
+            if any(isinstance(u, list) and not nest_flat(u) for u in nest_top(nst)):
+                bump(hist, "shape:empty-group")
         if case.get("rich"):
             bump(hist, "rich:" + case["rich"])
             for op in ("pow", "abs", "max", "min", "sum", "mean", "spread") + tuple(T.FUNCS1):
@@ -993,6 +1363,15 @@ def witnesses():
     obs = run_impl(case)
     for key, what in monitor(case, obs):
         out.append(Finding("monitor", key, what, {"case": case, "impl": obs}))
+    # a ctype list as long as the OUTER sequence of nested solvers: zip() drops the trailing solvers
+    case = {"kind": "chain", "regime": "small", "n": 3, "scheme": ("base", "x", True), "locals": None,
+            "rels": [(0, "=", ("n", "1.")), (1, "=", ("n", "2.")), (2, "=", ("n", "3."))], "x": [0.0, 0.0, 0.0],
+            "shape": {"how": "blocks", "blocks": [[0, 1], [2]], "tree": ["T", 0, 1]}, "ctype": ["inner", "outer"], "join": None,
+            "ctype_form": "outer-length"}
+    obs = run_impl(case)
+    line, info = build_request(case, obs)
+    for key, what in monitor(case, obs, info if line else None):
+        out.append(Finding("monitor", key, what, {"case": case, "impl": obs}))
     for lo, hi, x in [([0.1 + 0.2], [1.0], [0.0]), ([1.5, 0.0], [1.5, 1.0], [0.0, 3.0]), ([None, None], [None, math.inf], [1.0, 2.0])]:
         case = {"kind": "bounds", "lo": lo, "hi": hi, "x": x, "symbolic": True, "flavour": "witness"}
         obs = run_bounds(case)
@@ -1027,7 +1406,7 @@ def replay(path):
             return tuple(tup(u) if isinstance(u, list) else u for u in t)
         case["rels"] = [(r[0], r[1], tup(r[2])) for r in case["rels"]]
         case["scheme"] = tuple(case["scheme"])
-        for key in ("rich", "consts", "ctype", "join", "selfcheck"):
+        for key in ("rich", "consts", "ctype", "join", "selfcheck", "shape"):
             case.setdefault(key, None)
         obs = run_impl(case)
         line, info = build_request(case, obs) if "docs" in obs else (None, "generation raised")
@@ -1067,6 +1446,12 @@ def main(tier, seed):
             "ctype= one coupler or one per solver out of inner/outer/inner_proxy/outer_proxy (22%), join=and_ (14%), join=or_ (10%) - and "
             "evaluated at points placed on the boundary, one ulp either side, on/around the tolerance band, huge and tiny "
             "magnitudes; 6% of the cases re-check the function after re-importing mystic.symbolic or from 4 threads; "
+            "ARGUMENT SHAPES (42% of the cases): the relations reach generate_constraint as a tuple / list / nesting of TEXTS handed to "
+            "generate_solvers (17%: a tuple of tuples of solvers, one-element tuples, empty texts), as a hand-made nesting of the solvers of "
+            "one text (16%: lists and tuples up to 4 levels, empty groups, one-element wrappers), as ONE solver function outside any "
+            "sequence, as a numpy object array; ctype = None / one coupler / a flat list / a list nested like the solvers / nested "
+            "differently / longer than needed / (own class) as long as the outer sequence; with join= every top-level item is one member "
+            "(groups), ctype = None / one / one entry per member / one list handed whole to every member; "
             "plus boundsconstrain(symbolic=True/False). non-trivial = the compiled function changed the input")
     tb = ["Lean 4.33 kernel; axioms per theorem listed under coverage.theorems",
           "translator harness/symtrans.py (python ast -> Emitted.Expr) is untrusted but validated per case: the Lean evaluation of "
@@ -1077,6 +1462,10 @@ def main(tier, seed):
           "members); the driver runs compose? / joinAnd / joinOr with an empty draw stream: a run that needs a random draw is 'stuck' and must "
           "coincide with the implementation drawing (random.randint/random patched to count); success/failure of the combinators is observed "
           "through their documented onfail keyword",
+          "argument shapes: Model/EmittedShape.lean (Nest, flatten, the coupler list sized by the FLATTENED length, zip, nc/nt and the members "
+          "of a joined constraint); the driver op `gcs` runs gcItems/compose? and gcMembers/joinAndG/joinOrG on the nesting the GENERATOR "
+          "prescribes (the nesting of what generate_solvers returns is compared with it first); the harness' own reading of the documented "
+          "pairing (which solver gets which coupler, which solvers form a member) is compared with the model's (`used`, `groups`)",
           "boundsconstrain(symbolic=True): symbolic_bounds' text is modelled as the relation list x_j >= lo_j.., x_j <= hi_j..; "
           "boundsconstrain(symbolic=False) is monitored only (impose_bounds belongs to C16)"]
     assumptions = ["IEEE binary64 + - * / and comparisons agree between Lean Float and CPython/numpy scalars",
@@ -1085,7 +1474,9 @@ def main(tier, seed):
                    "(rhs -+ tol(rhs) != rhs); the theorems are over ordered fields",
                    "sqrt floor ceil abs are IEEE-exact; exp log sin cos (numpy kernels vs libm) and ** (C pow) may differ in the last ulps: "
                    "a 1e-6 tolerance applies to cases that use them and is counted separately (cmp:toleranced-inexact-fn); "
-                   "sum/mean/spread are compared in the exactness regime (dyadic points: every partial sum exact)",
+                   "sum/mean/spread are compared in the exactness regime (dyadic points: every partial sum exact); where such a function is the "
+                   "right-hand side of a '!=' line and x_i lies within 4 ulps of it, the last-ulp difference decides the equality test itself: "
+                   "not compared (cmp:inexact-fn-decides-equality-skipped)",
                    "numpy scalars (values of sqrt, exp, ..) do not raise on division by zero / 0**negative; python floats do: cases that mix both "
                    "are accepted when model and code differ only in that (counted: res:raises-vs-numpy-inf, join:numpy-scalar-no-raise-skipped)",
                    "python compares list items by identity before ==, so a nan inside a vector equals itself in constraints.and_/or_: join cases "
